@@ -213,6 +213,23 @@ EXTRA7 = {
     "C20": ("C17.b content reads in the liveness mechanism", "Also decides liveness of the values a quotation yields."),
 }
 
+EXTRA8 = {
+    "C02": ("R-PAIR every integrated Skip is entered in the gap table on every path", "Also decides that a Skip block never exists without its gap-table entry."),
+    "C03": ("liveness mechanism (content reads in closures need their own liveness test or an upstream filter)", "Also decides liveness of the entry Map::get_or_init reads."),
+    "C05": ("liveness mechanism", "Also decides liveness of every content read of map iterators."),
+    "C07": ("creation mechanism", "Also decides the origins of locally created items that the update events carry."),
+    "C08": ("R-GUARD nested cursor of IntoBlocks (path formula + truth table)", "Also decides that the per-input block stream changes client only on exhaustion."),
+    "C10": ("R-PANIC infallible callee behind the unwrap of Any::to_json", "Also decides that JSON re-encoding of a decoded value originates no error."),
+    "C11": ("R-PROV subject of an event (target vs current_target)", "Also decides that every change summary is computed over the event's own target."),
+    "C12": ("R-GUARD exact capture predicate of UndoManager::should_skip (truth table)", "Also decides which transactions become undo steps."),
+    "C13": ("R-OWN encoder out-parameter of the thin encode entry points (export mechanism)", "Also decides that snapshot encoding has no shortcut through another exporter."),
+    "C16": ("R-SCAN sweep cursors of IdRanges::exclude / intersect", "Also decides how the sweep over the other operand advances."),
+    "C17": ("R-TABLE node-kind conversion tables are complete", "Also decides that sibling conversion tables know the same node kinds."),
+    "C18": ("R-PROV the awareness handlers hand the received update on untouched", "Also decides that the protocol layer does not filter awareness updates."),
+    "C19": ("R-TABLE Any kind -> output cell in both From impls", "Also decides the tag of every converted value kind."),
+    "C20": ("R-GUARD cut before marking in LinkSource::materialize", "Also decides that adjacency alone chooses between cutting and marking whole."),
+}
+
 PENDING = {
 }
 
@@ -221,7 +238,7 @@ def main():
     checks = []
     for pid in sorted(CHECKS):
         tech, text, ref = CHECKS[pid]
-        for ex in (EXTRA, EXTRA2, EXTRA3, EXTRA4, EXTRA5, EXTRA6, EXTRA7):
+        for ex in (EXTRA, EXTRA2, EXTRA3, EXTRA4, EXTRA5, EXTRA6, EXTRA7, EXTRA8):
             if pid in ex:
                 tech = tech + "; " + ex[pid][0]
                 text = text + " " + ex[pid][1]
